@@ -66,6 +66,7 @@ def build_and_extract(progs, repo, log):
         if r.returncode != 0 or not os.path.exists(os.path.join(tmp, "corpus.json")):
             shutil.rmtree(tmp, ignore_errors=True)
             shutil.rmtree(work, ignore_errors=True)
+            shutil.rmtree(work + "-repo", ignore_errors=True)
             return None, rows, r.stdout[-3000:]
         os.makedirs(os.path.dirname(base), exist_ok=True)
         try:
@@ -73,10 +74,38 @@ def build_and_extract(progs, repo, log):
         except OSError:
             shutil.rmtree(tmp, ignore_errors=True)
         shutil.rmtree(work, ignore_errors=True)
+        shutil.rmtree(work + "-repo", ignore_errors=True)
     return Facts(fpath), rows, ""
 
 
+def fresh_repo_copy(work, repo):
+    """cargo decides freshness of path dependencies by mtime; to be independent of how /repo was
+    edited (a tool that preserves mtimes would leave a stale proc-macro in the cache), the corpus
+    is compiled against a fresh copy of the two crates, at a per-run path."""
+    dst = work.rstrip("/") + "-repo"        # sibling of the corpus crate (a nested copy would be a nested workspace)
+    shutil.rmtree(dst, ignore_errors=True)
+    os.makedirs(dst)
+    for item in ("Cargo.toml", "Cargo.lock", "README.md", "src", "rsactor-derive", "tests"):
+        sp = os.path.join(repo, item)
+        if os.path.isdir(sp):
+            shutil.copytree(sp, os.path.join(dst, item), ignore=shutil.ignore_patterns("target", ".git"), copy_function=shutil.copyfile)
+        elif os.path.exists(sp):
+            shutil.copyfile(sp, os.path.join(dst, item))
+    return dst
+
+
+def gc_target(limit_gb=3.0):
+    td = os.path.join(extract.CACHE, "target-corpus")
+    try:
+        out = subprocess.run(["du", "-sk", td], stdout=subprocess.PIPE, text=True).stdout.split()
+        if out and int(out[0]) > limit_gb * 1024 * 1024:
+            shutil.rmtree(td, ignore_errors=True)
+    except Exception:
+        pass
+
+
 def write_manifest(work, repo, name):
+    repo = fresh_repo_copy(work, repo)
     with open(os.path.join(work, "Cargo.toml"), "w") as fh:
         fh.write("[package]\nname = \"%s\"\nversion = \"0.0.0\"\nedition = \"2021\"\n\n[workspace]\n\n[dependencies]\n"
                  "rsactor = { path = \"%s\" }\ntokio = { version = \"1\", features = [\"macros\", \"rt-multi-thread\", \"sync\", \"time\"] }\n"
@@ -103,6 +132,7 @@ def run(run):
     repo = extract.REPO
     progs = gen.select(run.tier, run.seed)
     t0 = time.time()
+    gc_target()
     cf, rows, err = build_and_extract(progs, repo, None)
     if cf is None:
         run.fail("O19.0", "corpus-compiles", "the generated corpus does not compile against the macros of /repo (a valid handler program is rejected or expands to ill-typed code):\n%s" % err)
@@ -260,6 +290,7 @@ def negatives(run, repo):
                         "rejected with %r" % diag)
     finally:
         shutil.rmtree(work, ignore_errors=True)
+        shutil.rmtree(work + "-repo", ignore_errors=True)
 
 
 def runtime_half(run, f):
